@@ -277,7 +277,8 @@ func c19Faithful(c *core.Ctx) {
 					argOpts = append(argOpts, c19Arg{Name: n, Vals: []string{v1}})
 				}
 			}
-			for _, vs := range [][]string{{"v", "false"}, {"[a b]", "v"}, {"{a,b}", "(a=b c)", "false"}, {"false", "[a b]"}} {
+			// empty items (nothing after '=', a leading, trailing or doubled space) are items too
+			for _, vs := range [][]string{{"v", "false"}, {"[a b]", "v"}, {"{a,b}", "(a=b c)", "false"}, {"false", "[a b]"}, {""}, {"v", ""}, {"", "v"}, {"v", "", "false"}} {
 				argOpts = append(argOpts, c19Arg{Name: n, Vals: vs})
 			}
 		}
